@@ -106,6 +106,7 @@ func (w *writer) Publish(msgs []message.Message) (int64, error) {
 			return OffsetInvalid, err
 		}
 		indexTime = items[i].Timestamp
+		vhook.Pause("publish.message")
 	}
 	vhook.Pause("publish.written")
 
